@@ -258,5 +258,7 @@ Definition construct_raw (frame : bytes) : res response :=
   | KBase => Ok (RBase id)
   end.
 
-(* Response.construct as it is in the source (updated when the source is repaired) *)
-Definition construct (frame : bytes) : res response := construct_raw frame.
+(* Response.construct: the whole body sits in  try: ... except (IndexError, struct.error): raise
+   InvalidResponseException  (fix 36444fc) *)
+Definition construct (frame : bytes) : res response :=
+  catch (construct_raw frame) [EIndex; EStruct] (fun _ => Err EInvalidResponse).
